@@ -254,6 +254,8 @@ func (ex *Exec) choose(conds []*Term) int {
 			}
 		} else if v, ok := ex.known[c.id]; ok && !v {
 			ch.feas[i] = 0
+		} else if ex.journalOn && ex.job.MergeBlind {
+			ch.feas[i] = 1
 		} else if ex.cachedModelSatisfies(c) {
 			ch.feas[i] = 1
 			ex.cacheHits++
